@@ -26,6 +26,7 @@ def run(tier):
         metas[ev['id']] = meta
     n = 250 if tier == 'quick' else 4000
     ntrees = 0
+    n_train = [0, []]
     for it in range(n):
         lang = 'en' if it % 3 else 'ja'
         rf.set_lang(lang)
@@ -44,6 +45,20 @@ def run(tier):
                 except Exception as e:
                     again = 'RAISED ' + repr(e)[:100]
                 add({'e': 'text_eq', 'p': PROP, 'fmt': 'auto', 'what': 'reprinted_line_differs', 'a': ln, 'b': again}, dict(base, fmt='auto', text=ln[:600], reprinted=again[:600]))
+        # the training-data creator on the same file (outside the listed properties: a statistic): words, leaf categories and
+        # head-first dependencies of every tree, judged by Formats!TrainFails on the tree the reader returned
+        if results is not None and text is not None:
+            try:
+                from depccg.tools.data import convert_auto_to_json
+                samples = convert_auto_to_json(rf.write_tmp(text, '.auto'))
+                kept = [res for res in results if not (res.tree.is_leaf and res.tree.word == 'FAILED')]
+                for res, (sent, (cs, ds)) in zip(kept, samples):
+                    ws = sent.split(' ')
+                    add({'e': 'train', 'p': 'DATA', 'fmt': 'auto', 'r': rf.proj_read(res.tree),
+                         's': {'words': [[ord(ch) for ch in w] for w in ws], 'cats': list(cs), 'deps': [int(x) for x in ds]}}, dict(base, fmt='traindata', text=sent[:300]))
+                n_train[0] += len(samples)
+            except Exception as e:
+                n_train[1].append(repr(e)[:200])
         # CoNLL: last-column fragments concatenate to the AUTO line of the same tree
         real2 = trees.real_batch(b, rng)
         ctext = rf.render_events(PROP, 'conll', lang, b, real2, add, base)
@@ -69,7 +84,15 @@ def run(tier):
         if clause.startswith(PROP + '.'):
             m = metas[i]
             viols.append(Violation(PROP, clause, str(m.get('words'))[:300], m))
-    cov = {'tlc_runs': [{'cfg': 'MCFormats', 'distinct': mr.distinct, 'generated': mr.generated, 'wall_s': round(mr.wall, 1)}],
+    data_dev = {}
+    for (i, clause) in rejects:
+        if clause.startswith('DATA.'):
+            data_dev.setdefault(clause, []).append({k: metas[i][k] for k in ('lang', 'words', 'text') if k in metas[i]})
+    if data_dev or n_train[1]:
+        print('NOTE training-data creator (outside the listed properties) deviates from Formats!TrainFails: %s %s' % ({c: len(v) for c, v in data_dev.items()}, n_train[1][:2]))
+    cov = {'training_data_creator_against_Formats': {'samples': n_train[0], 'deviations': {c: len(v) for c, v in data_dev.items()},
+                                                      'first_deviation': {c: v[0] for c, v in data_dev.items()}, 'raised': n_train[1][:5]},
+           'tlc_runs': [{'cfg': 'MCFormats', 'distinct': mr.distinct, 'generated': mr.generated, 'wall_s': round(mr.wall, 1)}],
            'states': stats.states + mr.distinct, 'transitions': stats.transitions + mr.generated, 'binding_demonstration': demo, 'traces_validated_against_impl': len(events),
            'events': {'batches': n, 'trees_read_back': ntrees, 'events': len(events)},
            'samples': [{k: metas[i][k] for k in metas[i] if k in ('lang', 'fmt', 'words', 'text')} for i in (1, len(events) // 2, len(events))],
